@@ -495,6 +495,22 @@ func c13StdGraphs() ([]c13Input, map[string]string) {
 			out = append(out, c13Input{key: "config/size/" + k + "/imported", files: map[string]string{"main.tsh": "import g \"big.tsh\"\n\nprint(1)\n", "big.tsh": big[k]}})
 		}
 	}
+	// layered diamonds of imports: both files of a layer import both files of the next one (2 x 20 tiny files; the
+	// number of import PATHS doubles per layer, the number of files does not)
+	for _, layers := range []int{6, 20} {
+		files := map[string]string{}
+		for i := 0; i <= layers; i++ {
+			for _, sfx := range []string{"a", "b"} {
+				body := fmt.Sprintf("var V%d%s = %d\n", i, sfx, i)
+				if i < layers {
+					body = fmt.Sprintf("import (\n\tx \"l%d_a.tsh\"\n\ty \"l%d_b.tsh\"\n)\n", i+1, i+1) + body
+				}
+				files[fmt.Sprintf("l%d_%s.tsh", i, sfx)] = body
+			}
+		}
+		files["main.tsh"] = "import (\n\tx \"l0_a.tsh\"\n\ty \"l0_b.tsh\"\n)\nprint(1)\n"
+		out = append(out, c13Input{key: fmt.Sprintf("config/import-layers/%d", layers), files: files})
+	}
 	// a chain of 40 local files and a chain that closes on its first member
 	for _, closed := range []bool{false, true} {
 		files := map[string]string{}
